@@ -163,7 +163,7 @@ pub fn run(args: &[String]) {
     // LossyCounter on the adversarial stream: every width-th element is one tracked heavy hitter, all others distinct
     for w in [10usize, 100] {
         let wu = w as u64;
-        let r = measure(|| LossyCounter::<u64>::with_width(w), |f, i| { f.add(if (i + 1) % wu == 0 { 0 } else { 1_000_000 + i }); }, |f| f.clear(), &stages);
+        let r = measure(|| LossyCounter::<u64>::with_width(w), |f, i| { f.add(if (i + 1) % wu == 0 || (i + 2) % wu == 0 { 0 } else { 1_000_000 + i }); }, |f| f.clear(), &stages);
         put(&mut out, "lossy", json!({"width": w, "stream": "window-aligned heavy hitter"}), r);
     }
     // failed-operation paths: a full cuckoo / quotient filter that keeps rejecting inserts must not grow
